@@ -25,7 +25,8 @@ MANIFEST = dict(
           "value as html.parser+bs4 / html.unescape do, over the generated windows-1252 and html.unescape tables; hypothesis CharrefSafe; "
           "lossless_*_needs_safe = the two known findings, decided) and encoding_touches_values_only (tree level: xmlcharrefreplace "
           "commutes with rendering, the markup skeleton is untouched). DECLARATION: meta_rewritten_charset, meta_content_placeholder "
-          "(string or list-valued http-equiv), meta_both_styles (+ setUpSubstitutionsOld / meta_both_styles_old_stale / setUp_old_agrees), "
+          "(string or list-valued http-equiv), meta_both_styles (+ setUpSubstitutionsOld / meta_both_styles_old_stale / setUp_old_agrees), new_tag_meta_rewritten / "
+          "new_tag_content_placeholder / new_tag_attrs_win (a <meta> made with soup.new_tag(attrs=…, **kw)), "
           "meta_rewritten_content (general shape: any quiet prefix incl. earlier parameters, every key spelling the live pattern accepts, "
           "any value, any target name, continuation), meta_rewritten_content_last, meta_rewritten_content_verbatim, "
           "meta_python_specific_only_removes, content_rewritten_spellings + charset_re_tolerant (decided over the generated shape of the "
@@ -40,7 +41,9 @@ MANIFEST = dict(
           "search, set_up_substitutions (incl. list-valued http-equiv), decode/prettify/decode_contents/str() renderings with list and None "
           "attribute values, Tag.encode(errors=…), the reader on the writer's image — and the direct oracle on generated documents x "
           "encodings x entry points (bytes; decode; re-parse recovers values; declaration; original_encoding of a re-parse), with target "
-          "names from every spelling codecs.lookup accepts and call histories (repeated calls, copies, pickles) on the same object."),
+          "names from every spelling codecs.lookup accepts call histories (repeated calls, copies, pickles, other documents parsed in between) on the same object, 10 builder "
+          "configurations x 5 ways of creating the declaring <meta> (parsed, new_tag attrs=/keywords/both, parsed elsewhere and moved), "
+          "and the rewritten declaration's position swept across the documented detection window (1024 / 2048 / 5 %)."),
     design="7/C08",
     note=("Codec laws are hypotheses, grounded by proofs for the modelled codecs and by testing each other real codec on the characters of "
           "the case: (codec, character) pairs where CPython's codec is not round-trip lawful (shift_jis/euc-jp U+00A5 U+203E, cp932 U+00A2.., "
@@ -453,11 +456,85 @@ def gen_items(r, enc, ctx, depth, counter):
     return items
 
 
+# builder configurations (the property's "configurations"): none of them has anything to do with charset declarations, so
+# none may change what is rewritten
+CONFIG_NAMES = ["default", "default", "default", "mva_none", "mva_empty", "mva_custom", "builder_obj", "builder_obj_default",
+                "no_line_numbers", "dup_replace", "subclass_tag", "string_containers_empty"]
+# how the declaring <meta> gets into the tree
+HOWS = ["parsed", "parsed", "parsed", "new_tag_attrs", "new_tag_kw", "new_tag_attrs_over_kw", "parsed_fragment"]
+NOT_KEYWORDS = {"name", "namespace", "nsprefix", "attrs", "sourceline", "sourcepos", "string", "self"}
+
+
+def config_kwargs(cfg):
+    """-> (kwargs for BeautifulSoup, whether to pass the features argument)"""
+    e = E()
+    from bs4.builder import HTMLParserTreeBuilder
+    if cfg == "default":
+        return {}, True
+    if cfg == "mva_none":
+        return {"multi_valued_attributes": None}, True
+    if cfg == "mva_empty":
+        return {"multi_valued_attributes": {}}, True
+    if cfg == "mva_custom":
+        return {"multi_valued_attributes": {"*": ["class", "rel"], "td": ["headers"]}}, True
+    if cfg == "builder_obj":
+        return {"builder": HTMLParserTreeBuilder(multi_valued_attributes=None)}, False
+    if cfg == "builder_obj_default":
+        return {"builder": HTMLParserTreeBuilder()}, False
+    if cfg == "no_line_numbers":
+        return {"store_line_numbers": False}, True
+    if cfg == "dup_replace":
+        return {"on_duplicate_attribute": "replace"}, True
+    if cfg == "subclass_tag":
+        if "SubTag" not in e:
+            class SubTag(e["el"].Tag):
+                pass
+            e["SubTag"] = SubTag
+        return {"element_classes": {e["el"].Tag: e["SubTag"]}}, True
+    if cfg == "string_containers_empty":
+        return {"string_containers": {}}, True
+    raise KeyError(cfg)
+
+
+def make_soup(markup, cfg):
+    kw, feat = config_kwargs(cfg)
+    BS = E()["BeautifulSoup"]
+    return BS(markup, "html.parser", **kw) if feat else BS(markup, **kw)
+
+
+def make_meta(soup, markup, how, cfg):
+    """the declaring <meta> of `markup`, created through the API on `soup`"""
+    src = E()["BeautifulSoup"](markup, "html.parser").find("meta")
+    d = {k: str(v) for k, v in src.attrs.items()}
+    if how == "new_tag_attrs":
+        return soup.new_tag("meta", attrs=dict(d))
+    if how == "new_tag_kw":
+        kw = {k: v for k, v in d.items() if k.isidentifier() and k not in NOT_KEYWORDS}
+        rest = {k: v for k, v in d.items() if k not in kw}
+        return soup.new_tag("meta", attrs=(rest or None), **kw)
+    if how == "new_tag_attrs_over_kw":
+        # every identifier-named attribute also passed as a keyword with another value: the dictionary wins
+        kw = {k: "overridden-" + k for k in d if k.isidentifier() and k not in NOT_KEYWORDS}
+        return soup.new_tag("meta", attrs=dict(d), **kw)
+    if how == "parsed_fragment":
+        # parsed in a soup of its own (same configuration), then moved over
+        return make_soup(markup, cfg).find("meta").extract()
+    raise KeyError(how)
+
+
 def build_doc(recipe):
     e = E()
     NS = e["el"].NavigableString
-    soup = e["BeautifulSoup"]("<html><head><title>t</title>" + recipe["meta"].get("spacer", "") + recipe["meta"]["markup"]
-                              + recipe["meta"].get("second", "") + "</head><body></body></html>", "html.parser")
+    meta = recipe["meta"]
+    cfg = recipe.get("config", "default")
+    how = meta.get("how", "parsed")
+    if how == "parsed" or not meta["markup"]:
+        soup = make_soup("<html><head><title>t</title>" + meta.get("spacer", "") + meta["markup"]
+                         + meta.get("second", "") + "</head><body></body></html>", cfg)
+    else:
+        soup = make_soup("<html><head><title>t</title>" + meta.get("spacer", "") + '<meta id="slot-for-the-declaration">'
+                         + meta.get("second", "") + "</head><body></body></html>", cfg)
+        soup.find(id="slot-for-the-declaration").replace_with(make_meta(soup, meta["markup"], how, cfg))
 
     def add(parent, items):
         for it in items:
@@ -784,7 +861,10 @@ def stream_setup(ctx, batch):
         if multi and "http-equiv" in attrs and r.random() < 0.6:
             attrs["http-equiv"] = r.choice(["refresh Content-Type", "CONTENT-TYPE x", "a b", "content-type"])
             markup = "<" + name + "".join(f' {k}="{attrs[k]}"' for k in keys) + ">"
-        soup = e["BeautifulSoup"](markup, "html.parser", **({"multi_valued_attributes": {"*": ["http-equiv"]}} if multi else {}))
+        pcfg = "default" if multi else r.choice(CONFIG_NAMES)
+        soup = (e["BeautifulSoup"](markup, "html.parser", multi_valued_attributes={"*": ["http-equiv"]}) if multi
+                else make_soup(markup, pcfg))
+        ctx.count("setup:config:" + pcfg)
         tag = soup.find(name)
         kinds = {k: ("c" if isinstance(v, el.CharsetMetaAttributeValue) else "m" if isinstance(v, el.ContentMetaAttributeValue)
                      else "l" if isinstance(v, list) else "p")
@@ -804,7 +884,7 @@ def stream_setup(ctx, batch):
         if multi and "http-equiv" in attrs:
             want["http-equiv"] = "l"
             ctx.count("setup:http-equiv-list")
-        case = {"op": "setup", "markup": markup}
+        case = {"op": "setup", "markup": markup, "config": pcfg, "multi_valued_http_equiv": multi}
         real = " ".join(f"{tok(k)}:{kinds[k]}" for k in tag.attrs) or "-"
         line = f"setup {tok(name)} {len(tag.attrs)} " + " ".join(
             (f"{tok(k)} l {';'.join(tok(x) for x in v) if v else '_'}" if isinstance(v, list) else f"{tok(k)} p {tok(str(v))}")
@@ -814,6 +894,41 @@ def stream_setup(ctx, batch):
             report(ctx, "set_up_substitutions installs the wrong placeholders", case=case, expected=want, observed=kinds, stream="setup")
         ctx.count("setup:" + "".join(sorted(set(kinds.values()))))
         ctx.case(("setup", markup) if "c" in kinds.values() or "m" in kinds.values() else None)
+        # the same attributes through soup.new_tag(name, attrs=…, **kw) under a random builder configuration: keywords for some
+        # identifier-named keys, the dictionary for the rest, overlaps resolved in favour of the dictionary, a None now and then
+        if multi:
+            continue
+        cfg = r.choice(CONFIG_NAMES)
+        holder = make_soup("", cfg)
+        kw, dct = {}, {}
+        for k, v in attrs.items():
+            where = r.random()
+            if k.isidentifier() and k not in NOT_KEYWORDS and where < 0.4:
+                kw[k] = v
+            elif k.isidentifier() and k not in NOT_KEYWORDS and where < 0.55:
+                kw[k] = "kw-" + v
+                dct[k] = v
+            else:
+                dct[k] = v
+        if r.random() < 0.1:
+            dct["data-none"] = None
+        use_dict = bool(dct) or r.random() < 0.5
+        t = holder.new_tag(name, attrs=(dct if use_dict else None), **kw)
+        kinds2 = {k: ("c" if isinstance(v, el.CharsetMetaAttributeValue) else "m" if isinstance(v, el.ContentMetaAttributeValue)
+                      else "n" if v is None else "l" if isinstance(v, list) else "p") for k, v in t.attrs.items()}
+        want2 = {k: ("n" if (dct.get(k, kw.get(k)) is None) else want[k] if k in want else "p") for k in t.attrs}
+        case2 = {"op": "new_tag", "name": name, "kw": kw, "attrs": dct if use_dict else None, "config": cfg}
+
+        def toks(d):
+            return " ".join(f"{tok(k)} {'n -' if v is None else 'p ' + tok(v)}" for k, v in d.items())
+        line2 = f"newtag {tok(name)} {len(kw)} {toks(kw)} {len(dct) if use_dict else 0} {toks(dct) if use_dict else ''}"
+        batch.ask("setup-new_tag", " ".join(line2.split()), " ".join(f"{tok(k)}:{kinds2[k]}" for k in t.attrs) or "-", case2,
+                  want=" ".join(f"{tok(k)}:{want2[k]}" for k in t.attrs) or "-")
+        if kinds2 != want2:
+            report(ctx, "a tag made with new_tag(attrs=…, **kw) does not carry the placeholders a parsed tag would", case=case2,
+                   expected=want2, observed=kinds2, stream="setup-new_tag")
+        ctx.count("setup-new_tag:config:" + cfg)
+        ctx.case(("new_tag", json.dumps(case2, sort_keys=True)) if "c" in kinds2.values() or "m" in kinds2.values() else None)
     batch.flush()
 
 
@@ -1011,6 +1126,9 @@ def check_doc(ctx, batch, recipe, enc, entry, stream, history=None, formatter="m
             viol(f"an equivalent argument form of {entry} raised {type(ex).__name__}", observed=repr(ex)[:200], kind="argument-form")
     ctx.count(f"doc:entry:{entry}")
     ctx.count(f"doc:formatter:{formatter}")
+    ctx.count("doc:config:" + recipe.get("config", "default"))
+    if style != "none":
+        ctx.count("doc:meta-made:" + info.get("how", "parsed"))
     ctx.count(f"doc:meta:{style}")
     ctx.count("doc:enc-kind:" + ("single-byte" if sb_name(enc) else "utf" if f.norm.startswith("utf") else "multi-byte"))
     ctx.case(("doc", json.dumps(recipe, sort_keys=True), enc, entry) if nontrivial else None,
@@ -1098,14 +1216,14 @@ def check_doc_str(ctx, batch, recipe, e_enc, stream, history=None):
             batch.ask("doc-str-defaults", f"render s N {tt}", tok(str(soup.html)), case | {"call": "str(tag)"})
             batch.ask("doc-str-defaults", f"render ps N {tt}", tok(soup.html.prettify()), case | {"call": "tag.prettify()"})
             batch.ask("doc-str-defaults", f"render cs N {tt}", tok(soup.html.decode_contents()), case | {"call": "tag.decode_contents()"})
-            if style != "none":
-                m3 = BS(str(soup), "html.parser").find("meta")
-                got = m3.get("charset") if style == "charset" else m3.get("content")
-                want = "utf-8" if style == "charset" else content_expected(info["parts"], "utf-8", False)
-                if got != want:
-                    found.append("str() default")
-                    report(ctx, "str(soup) (eventual_encoding defaults to utf-8) does not name utf-8 in the declaration", case=case,
-                           expected=want, observed=got, stream=stream)
+    if e_enc is None and style != "none":
+        m3 = BS(str(soup), "html.parser").find("meta")
+        got = m3.get("charset") if style == "charset" else m3.get("content")
+        want = "utf-8" if style == "charset" else content_expected(info["parts"], "utf-8", False)
+        if got != want:
+            found.append("str(soup) (eventual_encoding defaults to utf-8) does not name utf-8 in the declaration")
+            report(ctx, "str(soup) (eventual_encoding defaults to utf-8) does not name utf-8 in the declaration", case=case,
+                   expected=want, observed=got, stream=stream)
     return found
 
 
@@ -1114,7 +1232,9 @@ def gen_recipe(r, enc, ctx):
     if meta["style"] != "none" and r.random() < 0.25:
         # a second <meta> after the declaring one, e.g. a content-type meta without any charset: created later, rendered later
         meta = dict(meta, second=r.choice(SECOND_METAS))
-    return {"meta": meta, "items": gen_items(r, enc, ctx, 0, [0])}
+    if meta["style"] != "none":
+        meta = dict(meta, how=r.choice(HOWS))
+    return {"meta": meta, "items": gen_items(r, enc, ctx, 0, [0]), "config": r.choice(CONFIG_NAMES)}
 
 
 # documents parsed in between (state must not leak across documents): a content-type <meta> WITHOUT a charset, one with,
@@ -1181,6 +1301,17 @@ def stream_history(ctx, batch):
 
 def stream_docs(ctx, batch):
     r = ctx.rng("docs")
+    # directed: every builder configuration x every way of getting the declaring <meta> into the tree x every declaration
+    for cfg in sorted(set(CONFIG_NAMES)):
+        for how in sorted(set(HOWS)):
+            for meta in NAME_METAS:
+                recipe = {"meta": dict(meta, how=how), "config": cfg,
+                          "items": [{"name": "p", "id": "n1", "attrs": [["title", "é ☃", None]], "cls": ["a", "bé"],
+                                     "kids": [{"text": "Жук café ☃", "bait": None}]}]}
+                check_doc(ctx, batch, recipe, r.choice(["koi8-r", "shift_jis", "latin-1", "866"]), r.choice(ENTRIES[:3]), "docs-constructed")
+                check_doc_str(ctx, batch, recipe, r.choice([None, "idna", "big5"]), "docs-constructed")
+    ctx.exhaustive_parts.append(f"construction grid: {len(set(CONFIG_NAMES))} builder configurations x {len(set(HOWS))} ways of creating the "
+                                f"declaring <meta> (parsed, new_tag attrs=/keywords/both, parsed elsewhere and moved) x {len(NAME_METAS)} declarations")
     # directed: every formatter x every declaration of NAME_METAS plus an empty HTML5 declaration x a few targets
     for fm in ("html", "html5"):
         for meta in NAME_METAS + [dict(markup='<meta charset="">', style="charset", orig="")]:
@@ -1552,6 +1683,7 @@ def replay(path):
     if op == "doc":
         soup = build_doc(c["recipe"])
         print("document:", ascii(soup.decode(eventual_encoding=None)))
+        print(f"builder configuration: {c['recipe'].get('config', 'default')}; declaring <meta> made by: {c['recipe']['meta'].get('how', 'parsed')}")
         print(f"call: {c['entry']}({c['encoding']!r})")
         if c.get("history"):
             print("after:", c["history"])
@@ -1562,6 +1694,23 @@ def replay(path):
             print("   property demands:", exp)
             print("   implementation:  ", obs)
         return 1 if any(kf is None for _, _, _, kf in found) else 0
+    if op == "new_tag":
+        holder = make_soup("", c.get("config", "default"))
+        t = holder.new_tag(c["name"], attrs=c["attrs"], **c["kw"])
+        print(f"soup.new_tag({c['name']!r}, attrs={c['attrs']!r}, **{c['kw']!r})  [builder configuration {c.get('config')}]")
+        print("implementation:  ", {k: type(x).__name__ for k, x in t.attrs.items()})
+        print("property demands:", v.get("expected"), "(c = CharsetMetaAttributeValue, m = ContentMetaAttributeValue, p = plain, n = None)")
+        kinds2 = {k: ("c" if type(x).__name__ == "CharsetMetaAttributeValue" else "m" if type(x).__name__ == "ContentMetaAttributeValue"
+                      else "n" if x is None else "l" if isinstance(x, list) else "p") for k, x in t.attrs.items()}
+        return 0 if kinds2 == v.get("expected") else 1
+    if op == "setup":
+        soup = (E()["BeautifulSoup"](c["markup"], "html.parser", multi_valued_attributes={"*": ["http-equiv"]}) if c.get("multi_valued_http_equiv")
+                else make_soup(c["markup"], c.get("config", "default")))
+        t = soup.find(True)
+        print("parsed", c["markup"], "[builder configuration", c.get("config"), "]")
+        print("implementation:  ", {k: type(x).__name__ for k, x in t.attrs.items()})
+        print("property demands:", v.get("expected"))
+        return 1
     if op == "window":
         out = call_entry(build_doc(c["recipe"]), c["entry"], c["encoding"])
         print(f"call: {c['entry']}({c['encoding']!r}) on a document whose head holds a {len(c['recipe']['meta']['spacer'])}-byte <meta name=description> "
@@ -1578,6 +1727,7 @@ def replay(path):
             shown = ascii(soup.decode(eventual_encoding=c["eventual_encoding"]))
         except Exception as ex:
             shown = "raised " + repr(ex)
+        print(f"builder configuration: {c['recipe'].get('config', 'default')}; declaring <meta> made by: {c['recipe']['meta'].get('how', 'parsed')}")
         print(f"call: decode(eventual_encoding={c['eventual_encoding']!r}) ->", shown)
         found = check_doc_str(ctx, None, c["recipe"], c["eventual_encoding"], "replay", history=c.get("history"))
         for w in found:
